@@ -311,7 +311,24 @@ pub fn directed_programs() -> Vec<String> {
     if !chunk.is_empty() {
         out.push(chunk);
     }
+    for t in scoping_programs() {
+        out.push(t);
+    }
     out
+}
+
+/// Scoping: entities inside (nested) namespaces used from inside and outside, forward declarations (shared with C02 and C04)
+pub fn scoping_programs() -> Vec<String> {
+    let scoping = [
+        "namespace A { static const float c = 2.0f; static float m = 1.0f; float k(float x) { return x * c + m; } }\nfloat s0(float x) { return A::c + x; }\nfloat s1(float x) { A::m = x; return A::k(x) + A::m; }\n",
+        "namespace A { static const int c = 5; struct S { int v; int get() { return v + c; } }; enum E { P = 3, Q = 7 }; int k(int x) { S s; s.v = x; return s.get() + (int)Q; } }\nint s2(int x) { A::S s; s.v = x; return s.get() + A::k(x) + (int)A::E::Q + A::c; }\n",
+        "namespace A { namespace B { static const int c = 5; int g(int x) { return x + c; } struct S { int v; }; } int k(int x) { return B::g(x) + B::c; } }\nint s3(int x) { A::B::S s; s.v = A::B::c; return A::B::g(x) + A::k(x) + s.v; }\n",
+        "static const int c = 1;\nnamespace A { static const int c = 10; int k(int x) { return x + c; } }\nnamespace B { static const int c = 100; int k(int x) { return x + c + A::c; } }\nint s4(int x) { return c + A::c + B::c + A::k(x) + B::k(x); }\n",
+        "int fwd(int a, int b);\nint s5(int x) { return fwd(x, 2); }\nint fwd(int a, int b) { return a * b + 1; }\n",
+        "int dflt(int a, int b = 3);\nint dflt(int a, int b) { return a * b + 1; }\nint s6(int x) { return dflt(x) + dflt(x, 5); }\n",
+        "int dflt2(int a, int b = 3) { return a * b + 1; }\nint s7(int x) { return dflt2(x) + dflt2(x, 5); }\n",
+    ];
+    scoping.iter().map(|t| t.to_string()).collect()
 }
 
 pub fn generated_program(seed: u64, index: u64) -> (String, Vec<&'static str>) {
